@@ -203,3 +203,8 @@ def run(repo: Repo, rep: Report, tier: str) -> None:
         rep.check((not passes_names) or repointed, "C20-R6", f"{cf.short} re-points the name table after node-eliminating passes",
                   f"replacements of {sorted(applied)} are applied to signal_refs" if repointed else
                   f"{missing} drop nodes but signal_refs still names the dropped ids: `Signal a = x + 1; Signal b = x + 1;` exposes a only (b has no anchor and no label)", cf.loc(used[0]))
+
+    # ---------------- R7 ---------------------------------------------------------------
+    from .shared import borrow as _borrow20
+    _borrow20(repo, rep, "C04", "C04-R5", "C20-R7", "every anchor created for a name is wired: wire population leaves no sink of a producer out, whichever routing strategy is used",
+              select=lambda o: "sinks handed to the spanning tree" in o.construct or "always routed directly" in o.construct, floor=2)
